@@ -214,7 +214,9 @@ func vc02Epoch(shape int, fitnessPattern int) {
 
 // the quota redistribution phases (stolen babies, delta coding) are not allowed to touch species ages or ids:
 // ages change only in the final ageing step, by exactly one
-func vc02Redistribute(maxSpecies, popSize int) {
+func vc02Redistribute(maxSpecies, popSizeBase int) {
+	// an odd size, and one large enough for the stolen-babies blocks (N/5, N/5, N/10) to exceed one
+	popSize := []int{popSizeBase, 2*popSizeBase - 1}[vChoice("PopSize", 2)]
 	ns := 1 + vChoice("species", maxSpecies)
 	ss, opts := sortedSpeciesWithQuotas(ns, popSize)
 	ages, ids := make([]int, ns), make([]int, ns)
@@ -233,6 +235,11 @@ func vc02Redistribute(maxSpecies, popSize int) {
 		vAssert(sp.Id == ids[i], "C02: redistributing offspring quotas does not change a species' id")
 	}
 	vAssert(pop.LastSpecies == ns, "C02: redistributing offspring quotas does not touch the species id counter")
+	total := 0
+	for _, sp := range ss {
+		total += sp.ExpectedOffspring
+	}
+	vAssert(total == popSize, "C02: the offspring quotas still total the configured population size after redistribution")
 	vReach("end")
 }
 
